@@ -69,6 +69,15 @@ rev_lookahead | ok | S -> a S2 | b ; S2 -> S c
 self_embed_mid | ok | S -> a S b S | c
 wide_alt | ok | S -> a | b | c | d | e | f
 unreach_conflict | ok | S -> a ; U -> U U | b
+eps_chain2_mid | ok | S -> k M id | id ; M -> p | D ; D -> N ; N ->
+eps_chain2_block | ok | B -> l Ss Lv r ; Ss -> | Ss s ; Lv -> C ; C -> H ; H ->
+eps_chain2_tail | ok | S -> n T ; T -> A eq num ; A -> Na | col id ; Na -> No ; No ->
+eps_chain3_mid | ok | S -> a X b ; X -> Y ; Y -> Z ; Z -> W ; W ->
+eps_chain2_two | ok | S -> A X Y c ; A -> a ; X -> X1 ; X1 -> X2 ; X2 -> ; Y -> Y1 | y ; Y1 -> Y2 ; Y2 ->
+eps_chain2_conflict | conflict | S -> A X a | A a b ; A -> a ; X -> X1 ; X1 -> X2 ; X2 ->
+eps_chain2_after_nt | ok | S -> L O semi ; L -> id | L comma id ; O -> P ; P -> Q ; Q ->
+eps_chain2_start | ok | S -> O a ; O -> P ; P -> Q ; Q ->
+eps_chain2_alt | ok | S -> a O b | a c ; O -> P | d ; P -> Q ; Q -> R ; R ->
 """
 
 
@@ -185,6 +194,37 @@ def tiny_exhaustive(max_nt=2, max_t=2, max_prods=3, max_rhs=2):
     return out
 
 
+def eps_chain_family():
+    """Structured family: a nonterminal that is nullable only through a chain of unit rules ending in an
+    epsilon rule, declared top-down or bottom-up, placed after / before other symbols.  Separates FIRST /
+    nullable fixpoints that stop after a pass changing nullability only."""
+    out = []
+    pres = [[], ['a'], ['A'], ['a', 'A']]
+    posts = [['b'], ['B', 'b'], [], ['B']]
+    for L in (2, 3):
+        for pi, pre in enumerate(pres):
+            for qi, post in enumerate(posts):
+                for order in ('top', 'bottom'):
+                    for alt in (False, True):
+                        chain = ['E%d' % i for i in range(L + 1)]
+                        rules = {}
+                        nts = ['S']
+                        rules['S'] = [pre + [chain[0]] + post] + ([['c']] if not (pre or post) else [pre + ['c']] if pre else [['c']])
+                        if 'A' in pre:
+                            nts.append('A'); rules['A'] = [['x']]
+                        if 'B' in post:
+                            nts.append('B'); rules['B'] = [['y'], []] if qi == 3 else [['y']]
+                        cr = {}
+                        for i in range(L):
+                            cr[chain[i]] = [[chain[i + 1]]] + ([['z']] if (alt and i == 0) else [])
+                        cr[chain[L]] = [[]]
+                        names = chain if order == 'top' else list(reversed(chain))
+                        for n in names:
+                            nts.append(n); rules[n] = cr[n]
+                        out.append(('epsfam_L%d_p%d_q%d_%s_%s' % (L, pi, qi, order, 'alt' if alt else 'plain'), None, nts, rules))
+    return out
+
+
 def random_grammar(rng, idx, max_nt=5, max_rules=10, max_t=4, max_rhs=4):
     nnt = rng.randint(1, max_nt)
     nt = ['N%d' % i for i in range(nnt)]
@@ -197,4 +237,17 @@ def random_grammar(rng, idx, max_nt=5, max_rules=10, max_t=4, max_rhs=4):
         rhs = [rng.choice(nt) if rng.random() < 0.4 else rng.choice(t) for _ in range(ln)]
         if rhs not in rules[lhs]:
             rules[lhs].append(rhs)
+    if rng.random() < 0.35:
+        L = rng.randint(2, 3)
+        chain = ['Z%d' % i for i in range(L + 1)]
+        host = rng.choice(nt)
+        base = list(rng.choice(rules[host])) if rules[host] else []
+        pos = rng.randint(0, len(base))
+        new = base[:pos] + [chain[0]] + base[pos:]
+        if new not in rules[host]:
+            rules[host].append(new)
+        for i in range(L):
+            rules[chain[i]] = [[chain[i + 1]]]
+        rules[chain[L]] = [[]]
+        nt = nt + (chain if rng.random() < 0.7 else list(reversed(chain)))
     return ('rand_%d' % idx, None, nt, rules)
